@@ -71,6 +71,13 @@ CHECKS = {
             "Structural: every derivation must query exactly (seed, version|class|alg id|usage|ctx, binder) as the spec prescribes or the trace is rejected. "
             "Behavioural: ctx/nonce/key/id mismatches at one or all aggregators with TLC-computed exact verdicts incl. the documented nonce exception.",
             "Tiny-field instantiations; Poplar1 binding under C03/C04."),
+    "C10": ("DESIGN.md#c10--ntt-and-lagrange-routines-equal-their-definitions",
+            "TLA+ definitions of the transforms and Lagrange routines by direct evaluation/interpolation (Ntt.tla); TLC computes full matrices on the unit "
+            "basis; replay through hook H2 on tiny fields; size/capacity verdict tables on tiny and deployed fields",
+            "Linearity makes basis comparison complete per size: for each power-of-two size up to 16 (GF(17)), 64 (GF(193)) resp. 128 every (or 8) basis vectors of "
+            "every routine are compared element by element with values TLC computes from the definitions; error classes at the size/capacity boundaries are "
+            "compared on all fields.",
+            "Tiny-field monomorphizations of the generic routines; sizes above 128 only at error boundaries."),
 }
 
 NOT_YET = {}
